@@ -248,4 +248,281 @@ theorem split_axis_elems (a : Arr α) (zero : α) (axis : Nat) (hwf : a.WF) (hax
       cases h3
       exact hr2
 
+/-! ### flat `repeat` -/
+
+/-- one count for all: every element that many consecutive times (any rank; the last axis must not be empty) -/
+theorem repeatFlat_single (a : Arr α) (c : Nat) (hwf : a.WF) (hlast : a.shape.getLast? ≠ some 0) :
+    a.repeatFlat [c] = .ok (Arr.flat (a.elems.flatMap (List.replicate c))) := by
+  unfold Arr.repeatFlat
+  have hb : (Arr.flat [c]).broadcastTo a.shape = .ok ⟨List.replicate a.elems.length c, a.shape⟩ := by
+    by_cases hne : a.shape = []
+    · have hl : a.elems.length = 1 := by rw [hwf, hne]; rfl
+      rw [hne, hl]
+      rfl
+    · rw [hwf]; exact broadcastTo_single c a.shape hne hlast
+  rw [hb]
+  simp only [Res.bind_ok, zip_replicate_flatMap]
+
+/-- an empty last axis is refused -/
+theorem repeatFlat_single_reject (a : Arr α) (c : Nat) (hlast : a.shape.getLast? = some 0) :
+    a.repeatFlat [c] = .err .BroadcastShapeMismatch := by
+  unfold Arr.repeatFlat Arr.broadcastTo
+  have : isBroadcastable (Arr.flat [c]).shape a.shape = false := by
+    have hrev : a.shape.reverse.head? = some 0 := by rw [List.head?_reverse]; exact hlast
+    cases hr : a.shape.reverse with
+    | nil => rw [hr] at hrev; simp at hrev
+    | cons y t =>
+      rw [hr] at hrev
+      simp only [List.head?_cons, Option.some.injEq] at hrev
+      subst hrev
+      simp [isBroadcastable, Arr.flat, hr, dimClash]
+  rw [if_pos (by simp [this])]
+  rfl
+
+/-- one count per element of a 1-D array -/
+theorem repeatFlat_1d (a : Arr α) (repeats : List Nat) (n : Nat) (hs : a.shape = [n]) (hn : 0 < n)
+    (hr : repeats.length = n) :
+    a.repeatFlat repeats = .ok (Arr.flat ((a.elems.zip repeats).flatMap (fun p => List.replicate p.2 p.1))) := by
+  unfold Arr.repeatFlat
+  have := broadcastTo_1d repeats n hn (.inl hr)
+  rw [hs, show Arr.flat repeats = ⟨repeats, [repeats.length]⟩ from rfl, this]
+  simp only [Res.bind_ok, bc1, hr, if_true]
+
+/-! ### rejections of `repeat` along an axis -/
+
+theorem repeatAxis_axis_err (a : Arr α) (zero : α) (repeats : List Nat) (axis : Nat) (h : a.ndim ≤ axis) :
+    a.repeatAxis zero repeats axis = .err .AxisOutOfBounds := by
+  unfold Arr.repeatAxis; rw [if_pos h]
+
+theorem repeatAxis_count_err (a : Arr α) (zero : α) (repeats : List Nat) (axis : Nat) (hax : axis < a.ndim)
+    (h : repeats.length ≠ a.shape.getD axis 0 ∧ repeats.length ≠ 1 ∧ a.shape.getD axis 0 ≠ 1 ∨ repeats.length = 0) :
+    a.repeatAxis zero repeats axis = .err .BroadcastShapeMismatch := by
+  have hax' : axis < a.shape.length := hax
+  have hidx : Res.idx a.shape axis = .ok (a.shape.getD axis 0) := by
+    simp [Res.idx, List.getD_eq_getElem?_getD, hax']
+  unfold Arr.repeatAxis
+  rw [if_neg (by omega)]
+  simp only [hidx, Res.bind_ok]
+  have : (Arr.flat repeats).broadcastTo [a.shape.getD axis 0] = .err .BroadcastShapeMismatch := by
+    unfold Arr.broadcastTo
+    have hcl : dimClash repeats.length (a.shape.getD axis 0) = true := by
+      unfold dimClash
+      simp only [Bool.or_eq_true, Bool.and_eq_true, bne_iff_ne, beq_iff_eq]
+      omega
+    rw [if_pos (by simp [Arr.flat, isBroadcastable_1d, hcl])]
+  rw [this]; rfl
+
+/-! ### `repeat` along an axis -/
+
+theorem ravel_append' : ∀ (P T cp ct : List Nat), cp.length = P.length →
+    ravel (P ++ T) (cp ++ ct) = ravel P cp * T.prod + ravel T ct
+  | [], T, [], ct, _ => by simp [ravel]
+  | d :: P, T, x :: cp, ct, h => by
+    have ih := ravel_append' P T cp ct (by simpa using h)
+    simp only [List.cons_append, ravel, ih, List.prod_append]
+    ring
+  | [], _, _ :: _, _, h => by simp at h
+  | _ :: _, _, [], _, h => by simp at h
+
+theorem inRange_append' : ∀ (P T cp ct : List Nat), cp.length = P.length →
+    inRange (P ++ T) (cp ++ ct) = (inRange P cp && inRange T ct)
+  | [], T, [], ct, _ => by simp [inRange]
+  | d :: P, T, x :: cp, ct, h => by
+    have ih := inRange_append' P T cp ct (by simpa using h)
+    simp only [List.cons_append, inRange, ih, Bool.and_assoc]
+  | [], _, _ :: _, _, h => by simp at h
+  | _ :: _, _, [], _, h => by simp at h
+
+theorem ravel_insert_mid (P T cp ct : List Nat) (L l i : Nat) (hi : i = P.length) (hl : cp.length = P.length) :
+    ravel ((P ++ T).insertIdx i L) ((cp ++ ct).insertIdx i l)
+      = ravel P cp * (L * T.prod) + l * T.prod + ravel T ct := by
+  subst hi
+  rw [insertIdx_append_length, ← hl, insertIdx_append_length, ravel_append' _ _ _ _ hl]
+  simp only [ravel, List.prod_cons]
+  ring
+
+theorem tmpShape_decomp : ∀ (s : List Nat) (axis L : Nat), axis < s.length →
+    ∃ P', ((s.set axis L).set 0 L).set axis ((s.set axis L).getD 0 0) = L :: (P' ++ (s.eraseIdx axis).drop axis) ∧
+      P'.length = axis ∧ P'.prod = ((s.eraseIdx axis).take axis).prod
+  | [], _, _, h => by simp at h
+  | s0 :: ss, 0, L, _ => ⟨[], by simp, rfl, by simp⟩
+  | s0 :: ss, i + 1, L, h => by
+    have hi : i < ss.length := by simpa using h
+    refine ⟨ss.take i ++ [s0], ?_, by simp; omega, ?_⟩
+    · simp only [List.set_cons_succ, List.set_cons_zero, List.getD_cons_zero, List.set_set, List.eraseIdx_cons_succ,
+        List.drop_succ_cons]
+      congr 1
+      rw [List.set_eq_take_append_cons_drop, if_pos hi, List.eraseIdx_eq_take_drop_succ]
+      rw [List.drop_append_of_le_length (by simp; omega)]
+      simp
+    · simp only [List.eraseIdx_cons_succ, List.take_succ_cons, List.prod_append, List.prod_cons, List.prod_nil]
+      rw [List.eraseIdx_eq_take_drop_succ, List.take_append_of_le_length (by simp; omega)]
+      simp [List.take_take]; ring
+
+theorem chunk_length (E : List α) (n P k : Nat) (hE : E.length = n * P) (hk : k < n) :
+    ((E.drop (k * P)).take P).length = P := by
+  rw [List.length_take, List.length_drop, hE]
+  have : (k + 1) * P ≤ n * P := Nat.mul_le_mul_right _ hk
+  rw [Nat.add_mul] at this
+  omega
+
+theorem chunk_getElem? (E : List α) (P k x : Nat) (hx : x < P) : ((E.drop (k * P)).take P)[x]? = E[k * P + x]? := by
+  rw [List.getElem?_take, if_pos hx, List.getElem?_drop]
+
+/-- `repeat(repeats, Some(axis))`, every axis of every rank -/
+theorem repeatAxis_ok (a : Arr α) (zero : α) (repeats : List Nat) (axis : Nat)
+    (hwf : a.WF) (hax : axis < a.ndim) (hnz : 0 ∉ a.shape)
+    (hr : repeats.length = a.shape.getD axis 0 ∨ repeats.length = 1) :
+    ∃ r, a.repeatAxis zero repeats axis = .ok r ∧
+      r.shape = a.shape.set axis (bc1 repeats (a.shape.getD axis 0)).sum ∧ r.WF ∧
+      ∀ c, inRange r.shape c = true →
+        ∃ k, (expandIdx (bc1 repeats (a.shape.getD axis 0)))[c.getD axis 0]? = some k ∧
+          r.get? c = a.get? (c.set axis k) := by
+  have hax' : axis < a.shape.length := hax
+  have hP : 0 < (a.shape.eraseIdx axis).prod := prod_pos_of_not_mem _ (not_mem_eraseIdx _ _ hnz)
+  have hn : 0 < a.shape.getD axis 0 := getD_mem_pos _ _ hax hnz
+  obtain ⟨arr, pieces, ha1, ha2, ha3, ha4, hsplit, hpieces⟩ := split_axis_elems a zero axis hwf hax hnz
+  generalize hR : bc1 repeats (a.shape.getD axis 0) = R
+  have hRl : R.length = a.shape.getD axis 0 := by rw [← hR]; exact bc1_length _ _ hr
+  have hidx : Res.idx a.shape axis = .ok (a.shape.getD axis 0) := by
+    simp [Res.idx, List.getD_eq_getElem?_getD, hax']
+  have hbc : (Arr.flat repeats).broadcastTo [a.shape.getD axis 0] = .ok ⟨R, [a.shape.getD axis 0]⟩ := by
+    rw [← hR]; exact broadcastTo_1d repeats _ hn hr
+  have harrlen : arr.elems.length = a.shape.getD axis 0 * (a.shape.eraseIdx axis).prod := by
+    rw [ha3, ha2]; simp
+  have hpl : pieces.length = a.shape.getD axis 0 := by
+    have := congrArg List.length hpieces; simpa using this
+  -- the slabs
+  have hpe : ∀ i, i < a.shape.getD axis 0 → (pieces.getD i (Arr.flat [])).elems =
+      (arr.elems.drop (i * (a.shape.eraseIdx axis).prod)).take (a.shape.eraseIdx axis).prod := by
+    intro i hi
+    have := congrArg (fun l => l[i]?) hpieces
+    simp only [List.getElem?_map, List.getElem?_range hi, Option.map_some] at this
+    rw [List.getElem?_eq_getElem (by omega)] at this
+    simp only [Option.map_some, Option.some.injEq] at this
+    rw [← this]
+    simp [List.getD_eq_getElem?_getD, List.getElem?_eq_getElem (show i < pieces.length by omega)]
+  -- the replicated slab list
+  have hPL := zip_flatMap_replicate_eq (Arr.flat ([] : List α)) pieces R (by omega)
+  have hPLlen : ((pieces.zip R).flatMap (fun p => List.replicate p.2 p.1)).length = R.sum :=
+    zip_flatMap_replicate_length _ _ (by omega)
+  have hPLe : ∀ x ∈ (pieces.zip R).flatMap (fun p => List.replicate p.2 p.1),
+      x.elems.length = (a.shape.eraseIdx axis).prod := by
+    intro x hx
+    rw [hPL] at hx
+    obtain ⟨i, hi, rfl⟩ := List.mem_map.1 hx
+    have hin := expandIdx_lt R i hi
+    rw [hpe i (by omega)]
+    exact chunk_length _ _ _ _ harrlen (by omega)
+  have hpartlen : (((pieces.zip R).flatMap (fun p => List.replicate p.2 p.1)).flatMap (·.elems)).length
+      = R.sum * (a.shape.eraseIdx axis).prod := by
+    rw [length_flatMap_uniform _ _ _ hPLe, hPLlen]
+  have hpart : ∀ l x, l < R.sum → x < (a.shape.eraseIdx axis).prod →
+      ∃ k, (expandIdx R)[l]? = some k ∧ k < a.shape.getD axis 0 ∧
+        (((pieces.zip R).flatMap (fun p => List.replicate p.2 p.1)).flatMap (·.elems))[l * (a.shape.eraseIdx axis).prod + x]?
+          = arr.elems[k * (a.shape.eraseIdx axis).prod + x]? := by
+    intro l x hl hx
+    have hlE : l < (expandIdx R).length := by rw [expandIdx_length]; exact hl
+    have hk : (expandIdx R)[l] < a.shape.getD axis 0 := by
+      have := expandIdx_lt R _ (List.getElem_mem hlE); omega
+    refine ⟨(expandIdx R)[l], List.getElem?_eq_getElem hlE, hk, ?_⟩
+    rw [getElem?_flatMap_uniform (fun (y : Arr α) => y.elems) _
+      ((pieces.zip R).flatMap (fun p => List.replicate p.2 p.1)) l x (by rw [hPLlen]; exact hl) hPLe hx]
+    have : ((pieces.zip R).flatMap (fun p => List.replicate p.2 p.1))[l]'(by omega)
+        = pieces.getD (expandIdx R)[l] (Arr.flat []) := by
+      have h1 : ((pieces.zip R).flatMap (fun p => List.replicate p.2 p.1))[l]? =
+          some (pieces.getD (expandIdx R)[l] (Arr.flat [])) := by
+        rw [hPL, List.getElem?_map, List.getElem?_eq_getElem hlE]; rfl
+      rw [List.getElem?_eq_getElem (by omega)] at h1
+      exact Option.some.inj h1
+    rw [this, hpe _ hk, chunk_getElem? _ _ _ _ hx]
+  -- the temporary shape
+  obtain ⟨P', htmp, hP'l, hP'p⟩ := tmpShape_decomp a.shape axis R.sum hax'
+  have hrest : a.shape.eraseIdx axis = (a.shape.eraseIdx axis).take axis ++ (a.shape.eraseIdx axis).drop axis :=
+    (List.take_append_drop _ _).symm
+  have hrestl : (a.shape.eraseIdx axis).length = a.shape.length - 1 := by simp [List.length_eraseIdx, hax']
+  have htakel : ((a.shape.eraseIdx axis).take axis).length = axis := by rw [List.length_take, hrestl]; omega
+  have hQprod : (P' ++ (a.shape.eraseIdx axis).drop axis).prod = (a.shape.eraseIdx axis).prod := by
+    conv => rhs; rw [hrest]
+    rw [List.prod_append, List.prod_append, hP'p]
+  have hre1 : (Arr.flat (((pieces.zip R).flatMap (fun p => List.replicate p.2 p.1)).flatMap (·.elems))).reshape
+      (R.sum :: (P' ++ (a.shape.eraseIdx axis).drop axis)) =
+        .ok ⟨((pieces.zip R).flatMap (fun p => List.replicate p.2 p.1)).flatMap (·.elems),
+          R.sum :: (P' ++ (a.shape.eraseIdx axis).drop axis)⟩ :=
+    Arr.new_of_prod (by simp only [Arr.flat]; rw [hpartlen, List.prod_cons, hQprod])
+  obtain ⟨m, hm1, hm2, hm3, hm4⟩ := moveFront_spec
+    (⟨((pieces.zip R).flatMap (fun p => List.replicate p.2 p.1)).flatMap (·.elems),
+          R.sum :: (P' ++ (a.shape.eraseIdx axis).drop axis)⟩ : Arr α) zero
+    (P' ++ (a.shape.eraseIdx axis).drop axis) R.sum axis
+    (by simp only [Arr.WF]; rw [hpartlen, List.prod_cons, hQprod]) rfl (by simp [hP'l])
+  have hmlen : m.elems.length = (a.shape.set axis R.sum).prod := by
+    rw [hm3, hm2, prod_set_eraseIdx _ _ _ hax',
+      perm_prod (List.perm_insertIdx R.sum _ (by simp [hP'l])), List.prod_cons, hQprod, Nat.mul_comm]
+  refine ⟨⟨m.elems, a.shape.set axis R.sum⟩, ?_, rfl, hmlen, ?_⟩
+  · unfold Arr.repeatAxis
+    rw [if_neg (by omega)]
+    simp only [hidx, Res.bind_ok, hbc, hsplit, htmp, hre1, hm1]
+    exact Arr.new_of_prod hmlen.symm
+  · intro c hc
+    simp only at hc
+    have hcl : c.length = a.shape.length := by have := inRange_length _ _ hc; simpa using this
+    have hc' : inRange (a.shape.eraseIdx axis) (c.eraseIdx axis) = true := by
+      have := inRange_eraseIdx _ _ axis hc
+      rwa [List.eraseIdx_set_eq] at this
+    have hl : c.getD axis 0 < R.sum := by
+      have := inRange_getD_lt _ _ axis hc (by simpa using hax')
+      rwa [getD_set_self _ _ _ hax'] at this
+    have hc'l : (c.eraseIdx axis).length = (a.shape.eraseIdx axis).length := inRange_length _ _ hc'
+    have hcsplit : c.eraseIdx axis = (c.eraseIdx axis).take axis ++ (c.eraseIdx axis).drop axis :=
+      (List.take_append_drop _ _).symm
+    have hcpl : ((c.eraseIdx axis).take axis).length = ((a.shape.eraseIdx axis).take axis).length := by
+      rw [List.length_take, List.length_take, hc'l]
+    have hin2 : inRange ((a.shape.eraseIdx axis).take axis) ((c.eraseIdx axis).take axis) = true ∧
+        inRange ((a.shape.eraseIdx axis).drop axis) ((c.eraseIdx axis).drop axis) = true := by
+      have := hc'
+      rw [hrest, hcsplit, inRange_append' _ _ _ _ hcpl] at this
+      simpa using this
+    -- the coordinate in the swapped prefix
+    have hx : ravel ((a.shape.eraseIdx axis).take axis) ((c.eraseIdx axis).take axis) < P'.prod := by
+      rw [hP'p]; exact ravel_lt _ _ hin2.1
+    obtain ⟨hu1, hu2⟩ := ravel_unravel P' _ hx
+    have hul : (unravel P' (ravel ((a.shape.eraseIdx axis).take axis) ((c.eraseIdx axis).take axis))).length = P'.length :=
+      unravel_length _ _
+    have hq : inRange (P' ++ (a.shape.eraseIdx axis).drop axis)
+        (unravel P' (ravel ((a.shape.eraseIdx axis).take axis) ((c.eraseIdx axis).take axis)) ++ (c.eraseIdx axis).drop axis) = true := by
+      rw [inRange_append' _ _ _ _ hul, hu2, hin2.2]; rfl
+    have h4 := hm4 _ _ hq hl
+    -- positions
+    have hpos1 : ravel (a.shape.set axis R.sum) c =
+        ravel ((P' ++ (a.shape.eraseIdx axis).drop axis).insertIdx axis R.sum)
+          ((unravel P' (ravel ((a.shape.eraseIdx axis).take axis) ((c.eraseIdx axis).take axis)) ++ (c.eraseIdx axis).drop axis).insertIdx axis (c.getD axis 0)) := by
+      have e1 : a.shape.set axis R.sum = ((a.shape.eraseIdx axis).take axis ++ (a.shape.eraseIdx axis).drop axis).insertIdx
+          axis R.sum := by
+        rw [← hrest, insertIdx_eraseIdx_self _ _ _ hax']
+      have e2 : c = ((c.eraseIdx axis).take axis ++ (c.eraseIdx axis).drop axis).insertIdx
+          axis (c.getD axis 0) := by
+        rw [← hcsplit, insertIdx_eraseIdx_getD c axis (by omega)]
+      conv => lhs; rw [e1, e2]
+      rw [ravel_insert_mid _ _ _ _ _ _ _ htakel.symm hcpl, ravel_insert_mid _ _ _ _ _ _ _ hP'l.symm hul, hu1]
+    have hpos2 : ravel (P' ++ (a.shape.eraseIdx axis).drop axis)
+        (unravel P' (ravel ((a.shape.eraseIdx axis).take axis) ((c.eraseIdx axis).take axis)) ++ (c.eraseIdx axis).drop axis)
+        = ravel (a.shape.eraseIdx axis) (c.eraseIdx axis) := by
+      rw [ravel_append' _ _ _ _ hul, hu1]
+      conv => rhs; rw [hrest, hcsplit]
+      rw [ravel_append' _ _ _ _ hcpl]
+    obtain ⟨k, hk1, hk2, hk3⟩ := hpart (c.getD axis 0) (ravel (a.shape.eraseIdx axis) (c.eraseIdx axis)) hl (ravel_lt _ _ hc')
+    refine ⟨k, hk1, ?_⟩
+    show m.elems[ravel (a.shape.set axis R.sum) c]? = _
+    rw [hpos1]
+    have h4' : m.elems[ravel m.shape ((unravel P' (ravel ((a.shape.eraseIdx axis).take axis) ((c.eraseIdx axis).take axis)) ++ (c.eraseIdx axis).drop axis).insertIdx axis (c.getD axis 0))]? = _ := h4
+    rw [hm2] at h4'
+    rw [h4']
+    simp only [Arr.get?, ravel]
+    rw [hpos2, hQprod, hk3]
+    -- back to `a`
+    have hin3 : inRange a.shape (c.set axis k) = true := inRange_set_axis _ _ _ _ _ hc hk2
+    have := ha4 _ hin3
+    rw [List.eraseIdx_set_eq, getD_set_self c axis k (by omega)] at this
+    simp only [Arr.get?, ha2, ravel] at this
+    exact this
 end ArrModel
